@@ -15,7 +15,6 @@ import (
 	"regexp"
 	"runtime"
 	"sort"
-	"strconv"
 	"strings"
 	"testing"
 
@@ -662,13 +661,14 @@ func (w *world) bumpedK(src string, k int) *neotest.Contract {
 		vf := filepath.Join(d, "common", "version.go")
 		b, err := os.ReadFile(vf)
 		require.NoError(w.t, err)
-		re := regexp.MustCompile(`(?m)^(\s*patch\s*=\s*)(\d+)`)
-		m := re.FindSubmatch(b)
-		if m == nil {
-			w.t.Fatal("common/version.go: patch constant not found")
+		// `Version = <expr>` is replaced by the evaluated version + k (independent of how the components are called)
+		cur, err := chainx.SourceVersion(repo)
+		require.NoError(w.t, err)
+		re := regexp.MustCompile(`(?m)^(\s*)Version\s*=.*$`)
+		if !re.Match(b) {
+			w.t.Fatal("common/version.go: no `Version = …` line to patch")
 		}
-		pv, _ := strconv.Atoi(string(m[2]))
-		b = re.ReplaceAll(b, []byte(fmt.Sprintf("${1}%d", pv+k)))
+		b = re.ReplaceAll(b, []byte(fmt.Sprintf("${1}Version = %d", cur+int64(k))))
 		require.NoError(w.t, os.WriteFile(vf, b, 0o644))
 	}
 	return w.compileDir(filepath.Join(root, "contracts", src), w.c.Cmt.ScriptHash())
